@@ -31,7 +31,38 @@
 #include "givrational.h"
 #include <recint/recint.h>
 
+#include <signal.h>
+#include <unistd.h>
+#include <sys/time.h>
+#include "giverror.h"
 using namespace Givaro;
+
+// ---------------------------------------------------------------- repair flags of the tree under test (chosen by the check's probes, C17_MODEL_FLAGS = "<fixr><fixrc><fxc>")
+static bool g_fixr = false, g_fixrc = false, g_fxc = false;
+// ---------------------------------------------------------------- per-case CPU watchdog (CPU time is load independent)
+// g_case counts the cases (one sequence, one allocator token list, one probe) finished so far; a SIGPROF every C17_CPU_BUDGET seconds of CPU
+// time finds out whether the process is still in the same case: then that case "does not return" and the process exits with code 97 after
+// naming the case on stdout.
+static volatile long g_case = 0, g_case_seen = -1;
+static char g_case_name[2400] = "";
+static void set_case_name(const std::string& s) { strncpy(g_case_name, s.c_str(), sizeof g_case_name - 1); g_case_name[sizeof g_case_name - 1] = 0; }
+static std::string (*g_case_fmt)() = 0;      // formats the case being executed (enumerations keep only a pointer)
+static void on_prof(int) {
+    if (g_case_seen == g_case) {
+        if (g_case_fmt) { std::string d = g_case_fmt(); strncat(g_case_name, " :: ", sizeof g_case_name - strlen(g_case_name) - 1); strncat(g_case_name, d.c_str(), sizeof g_case_name - strlen(g_case_name) - 1); }
+        static const char msg[] = "\nDOES-NOT-RETURN ";
+        if (write(1, msg, sizeof msg - 1) < 0) {}
+        if (write(1, g_case_name, strlen(g_case_name)) < 0) {}
+        if (write(1, "\n", 1) < 0) {}
+        _exit(97);
+    }
+    g_case_seen = g_case;
+}
+static void start_watchdog() {
+    const char* b = getenv("C17_CPU_BUDGET"); long sec = b ? atol(b) : 20; if (sec <= 0) return;
+    struct sigaction sa; memset(&sa, 0, sizeof sa); sa.sa_handler = on_prof; sigaction(SIGPROF, &sa, 0);
+    struct itimerval it; it.it_interval.tv_sec = sec; it.it_interval.tv_usec = 0; it.it_value = it.it_interval; setitimer(ITIMER_PROF, &it, 0);
+}
 
 // ---------------------------------------------------------------- access to the pool's tables
 #ifdef GIVARO_VERIF_HAVE_MM_HOOK
@@ -223,7 +254,7 @@ template <class T> struct World {
         for (int i = 0; i < nh; ++i) {
             Acc<T>& x = H(i);
             out.push_back((long) x.size()); out.push_back((long) x.psz());
-            if (x.cnt()) { out.push_back(1); out.push_back(x.getCounter()); } else { out.push_back(0); out.push_back(0); }
+            if (x.cnt()) { out.push_back(1); out.push_back(x.getCounter()); } else { out.push_back(0); out.push_back(g_fxc ? x.getCounter() : 0); }
             if (addr) { out.push_back(addr_id(x.dat())); out.push_back(addr_id(x.cnt())); }
             for (size_t k = 0; k < x.size(); ++k) out.push_back(cell(i, k));
         }
@@ -248,7 +279,7 @@ template <class T> struct World {
         for (int i = 0; i < nh; ++i) {
             Acc<T>& x = H(i);
             o << "h" << i << ":" << x.size() << "," << x.psz() << ",";
-            if (x.cnt()) o << x.getCounter(); else o << "-";
+            if (x.cnt()) o << x.getCounter(); else if (g_fxc) { if (x.getCounter() == 0) o << "-"; else o << "!" << x.getCounter(); } else o << "-";
             o << ",";
             if (addr) { if (x.dat()) o << addr_id(x.dat()); else o << "-"; o << ","; if (x.cnt()) o << addr_id(x.cnt()); else o << "-"; }
             else o << "?,?";
@@ -265,7 +296,7 @@ template <class T> struct World {
         for (int i = 0; i < nh; ++i) {
             Acc<T>& x = H(i);
             if (x.size() != orc.h[i].size) { o << "h" << i << ".size=" << x.size() << " expected " << orc.h[i].size << "; "; continue; }
-            long c = x.cnt() ? x.getCounter() : 0;
+            long c = (x.cnt() || g_fxc) ? x.getCounter() : 0;       // an empty array: 0 sharers (getCounter() itself only with the repair of frag/C17.fix-11)
             if (c != orc.counter(i)) o << "h" << i << ".counter=" << c << " expected " << orc.counter(i) << "; ";
             for (size_t k = 0; k < x.size(); ++k) {
                 long e = (*orc.h[i].grp)[k];
@@ -362,6 +393,8 @@ static std::string show_seq(const std::vector<AOp>& seq) {
     return o.str();
 }
 
+static const std::vector<AOp>* g_cur_seq = 0;
+static std::string fmt_cur_seq() { return g_cur_seq ? show_seq(*g_cur_seq) : std::string(); }
 template <class T> struct Enum {
     Fx fx; bool addr; int nh; int lmax; std::vector<AOp> alpha; long nodes, ndef; std::ostringstream extra; int nextra;
     void visit(std::vector<AOp>& seq, int mx) {
@@ -380,7 +413,7 @@ template <class T> struct Enum {
     bool stop_here;
     void visit1(std::vector<AOp>& seq, int mx) {
         World<T> w(nh, addr);
-        ++nodes; stop_here = false;
+        ++nodes; stop_here = false; ++g_case; g_cur_seq = &seq;
         int dk = -1, dcode = 0;
         for (size_t k = 0; k < seq.size(); ++k) {
             Op o = op_of(seq[k], (int) k);
@@ -409,7 +442,9 @@ template <class T> static std::string cmd_enum(const Fx& fx, bool addr, int nh, 
         Op o = parse_op(prefix[i]); AOp a{o.kind, o.h, (int) o.a};
         int m = used_after(mx, a); mx = (m == -2) ? 99 : m; seq.push_back(a);
     }
+    g_case_fmt = fmt_cur_seq;
     e.visit(seq, mx);
+    g_case_fmt = 0; g_cur_seq = 0;
     std::ostringstream out; out << e.nodes << " " << e.ndef << " " << g_h1 << " " << g_h2 << e.extra.str();
     return out.str();
 }
@@ -422,20 +457,26 @@ static std::string cmd_alloc(bool fixed0, const std::vector<std::string>& toks) 
         while (std::getline(ss, part, ',') && n < 3) v[n++] = atol(part.c_str());
         if (t[0] == 'a') {
             if (v[0] == 0 && !fixed0) { slots.push_back(0); out << "x!idx-1 "; continue; }   // recorded defect: not executed here
-            void* p = GivMMFreeList::allocate((size_t) v[0]);
+            void* p = 0;
+            try { p = GivMMFreeList::allocate((size_t) v[0]); }
+            catch (GivError&) { slots.push_back(0); out << "x!toobig "; continue; }           // no size class holds the request: nothing changed
             if (p) memset(p, 0x30 + (int) (slots.size() % 60), (size_t) v[0]);
             slots.push_back(p);
             if (!p) out << "0 "; else out << addr_id(p) << "/" << header_index(p) << " ";
         } else if (t[0] == 'f') {
-            GivMMFreeList::desallocate(slots[v[0]]); out << "f ";
+            GivMMFreeList::desallocate((v[0] < 0 || (size_t) v[0] >= slots.size()) ? 0 : slots[v[0]]); out << "f ";
         } else if (t[0] == 'r') {
-            void* src = slots[v[0]];
+            void* src = (v[0] < 0 || (size_t) v[0] >= slots.size()) ? 0 : slots[v[0]];          // r-1,old,new: the null pointer as source
+            if (!src && v[2] == 0 && !g_fixr) { slots.push_back(0); out << "0!idx-1 "; continue; }   // resize(0, x, 0) indexes TabFree[-1] (finding null-src-size0): not executed here
             unsigned char keep[2048]; size_t m = std::min((size_t) 2048, std::min((size_t) v[1], (size_t) v[2]));
             if (src) memcpy(keep, src, m);
-            void* p = GivMMFreeList::resize(src, (size_t) v[1], (size_t) v[2]);
-            bool same = !src || memcmp(keep, p, m) == 0;       // the first min(old,new) bytes survive a move
+            void* p = 0;
+            try { p = GivMMFreeList::resize(src, (size_t) v[1], (size_t) v[2]); }
+            catch (GivError&) { slots.push_back(0); out << "0!toobig "; continue; }
+            bool same = !src || !p || memcmp(keep, p, m) == 0;       // the first min(old,new) bytes survive a move
             if (p && (size_t) v[2] > (size_t) v[1]) memset((char*) p + v[1], 0x70 + (int) (slots.size() % 60), (size_t) v[2] - (size_t) v[1]);
-            slots.push_back(p); out << addr_id(p) << "/" << header_index(p) << (same ? "" : "!content") << " ";     // (src == 0: see the resize0 probe)
+            slots.push_back(p);
+            if (!p) out << "0 "; else out << addr_id(p) << "/" << header_index(p) << (same ? "" : "!content") << " ";
         }
     }
     std::vector<std::pair<int, std::vector<const void*> > > lists;
@@ -511,16 +552,22 @@ struct RWorld {
         ++pat; unsigned char* b = (unsigned char*) q[i];
         for (size_t k = from; k < to; ++k) { b[k] = (unsigned char) (pat * 7 + k); o[i]->bytes[k] = b[k]; }
     }
+    // resize of a live pointer to a size no class holds, body as it is: releases / decrements before _allocate throws (finding refused-size):
+    // not executed in the sequences (own-process probe `rcrefuse`); the sequence stops there on both sides
+    bool refused_as_is(char kind, int i, long a) const { return kind == 'r' && !g_fixrc && q[i] != 0 && (size_t) a + 8 > tabsize_at(511); }
     void apply(char kind, int i, long a) {
         probe.clear();
         switch (kind) {
-        case 'n': { void* np = GivMMRefCount::allocate((size_t) a); GivMMRefCount::desallocate(q[i]); q[i] = np; usz[i] = (size_t) a;
+        case 'n': { void* np = 0;
+                    try { np = GivMMRefCount::allocate((size_t) a); } catch (GivError&) { probe = "refused"; break; }     // nothing has changed
+                    GivMMRefCount::desallocate(q[i]); q[i] = np; usz[i] = (size_t) a;
                     o[i] = std::make_shared<RBlk>(); o[i]->bytes.assign((size_t) a, -1); fill(i, 0, (size_t) a); break; }
         case 's': { void* r = GivMMRefCount::assign(&q[i], q[a]); if (r != q[i] || q[i] != q[a]) probe = "assign-result!"; usz[i] = usz[a]; o[i] = o[a]; break; }
         case 'z': { void* r = GivMMRefCount::assign(&q[i], 0); if (r != 0 || q[i] != 0) probe = "assign-result!"; usz[i] = 0; o[i].reset(); break; }
         case 'f': GivMMRefCount::desallocate(q[i]); q[i] = 0; usz[i] = 0; o[i].reset(); break;
         case 'r': { size_t old = usz[i], nw = (size_t) a;
-                    q[i] = GivMMRefCount::resize(q[i], old, nw); usz[i] = nw;
+                    try { q[i] = GivMMRefCount::resize(q[i], old, nw); } catch (GivError&) { probe = "refused"; break; }   // repaired body / null pointer: nothing has changed
+                    usz[i] = nw;
                     std::shared_ptr<RBlk> nb = std::make_shared<RBlk>(); nb->bytes.assign(nw, -1);
                     if (o[i]) for (size_t k = 0; k < std::min(old, nw); ++k) nb->bytes[k] = o[i]->bytes[k];
                     if (o[i] && o[i].use_count() == 1 && nw <= old) { o[i]->bytes.resize(std::max(old, nw)); }   // sole owner, no growth: same block
@@ -543,7 +590,7 @@ struct RWorld {
             if (!q[i]) s << "q" << i << ":- ";
             else s << "q" << i << ":" << addr_id((char*) q[i] - 8) << "/" << header_index((char*) q[i] - 8) << "/" << GivMMRefCount::getrc(q[i]) << " ";
         }
-        if (!probe.empty()) s << "probe=" << probe << " ";
+        if (!probe.empty() && probe != "refused") s << "probe=" << probe << " ";
         return s.str();
     }
     // implementation vs reference-count oracle
@@ -563,7 +610,7 @@ struct RWorld {
                 if ((q[i] == q[j]) != (o[i] == o[j])) s << "q" << i << (q[i] == q[j] ? " aliases q" : " does not alias q") << j << "; ";
             }
         }
-        if (probe.size() && probe != "assign-result!") {    // incrc,getrc,decrc of the probed variable
+        if (probe.size() && probe != "assign-result!" && probe != "refused") {    // incrc,getrc,decrc of the probed variable
             long a = 0, b = 0, c = 0; sscanf(probe.c_str(), "%ld,%ld,%ld", &a, &b, &c);
             // recover which variable: the values must be count+1,count+1,count of some live variable, or 0,0,0
             bool ok = (a == 0 && b == 0 && c == 0);
@@ -587,7 +634,9 @@ static std::string rop_str(const ROp& o) {
 static std::string cmd_rcq(const std::vector<std::string>& toks) {
     pool_baseline(); RWorld w; std::ostringstream out;
     for (size_t k = 0; k < toks.size(); ++k) {
-        ROp o = parse_rop(toks[k]); w.apply(o.kind, o.i, o.a);
+        ROp o = parse_rop(toks[k]);
+        if (w.refused_as_is(o.kind, o.i, o.a)) { out << "| df=refused "; break; }
+        w.apply(o.kind, o.i, o.a);
         out << "| " << w.show();
         std::string d = w.oracle_diff();
         if (!d.empty()) { out << "ORACLE-MISMATCH step " << k << " (" << toks[k] << "): " << d; return out.str(); }
@@ -606,15 +655,22 @@ static std::vector<ROp> ralphabet(const std::vector<int>& sizes) {
     for (int i = 0; i < RWorld::NQ; ++i) l.push_back(ROp{'p', i, 0});
     return l;
 }
+static const std::vector<ROp>* g_cur_rseq = 0;
+static std::string fmt_cur_rseq() { std::string r; if (g_cur_rseq) for (size_t k = 0; k < g_cur_rseq->size(); ++k) r += rop_str((*g_cur_rseq)[k]) + " "; return r; }
 struct REnum {
     std::vector<ROp> alpha; int lmax; long nodes; std::ostringstream extra; int nextra;
     void visit(std::vector<ROp>& seq) {
         ++nodes;
-        RWorld w; std::string d;
-        for (size_t k = 0; k < seq.size() && d.empty(); ++k) { w.apply(seq[k].kind, seq[k].i, seq[k].a); d = w.oracle_diff(); }
+        RWorld w; std::string d; bool cut = false;
+        ++g_case; g_cur_rseq = &seq;
+        for (size_t k = 0; k < seq.size() && d.empty(); ++k) {
+            if (w.refused_as_is(seq[k].kind, seq[k].i, seq[k].a)) { cut = true; break; }
+            w.apply(seq[k].kind, seq[k].i, seq[k].a); d = w.oracle_diff();
+        }
+        if (cut) { mix(-200); w.cleanup(); return; }
         std::vector<long> obs; w.observe(obs);
         for (size_t i = 0; i < obs.size(); ++i) mix(obs[i]);
-        for (size_t i = 0; i < w.probe.size(); ++i) mix(w.probe[i]);
+        if (w.probe != "refused") for (size_t i = 0; i < w.probe.size(); ++i) mix(w.probe[i]);
         w.cleanup();
         long po = pool_outstanding();
         if ((!d.empty() || po != 0) && nextra < 20) {
@@ -632,7 +688,9 @@ static std::string cmd_rcenum(const std::vector<std::string>& toks) {
     REnum e; e.alpha = ralphabet(sizes); e.lmax = atoi(toks[1].c_str()); e.nodes = 0; e.nextra = 0;
     g_h1 = g_h2 = 0; pool_baseline();
     std::vector<ROp> seq; for (size_t i = 2; i < toks.size(); ++i) seq.push_back(parse_rop(toks[i]));
+    g_case_fmt = fmt_cur_rseq;
     e.visit(seq);
+    g_case_fmt = 0; g_cur_rseq = 0;
     std::ostringstream out; out << e.nodes << " " << g_h1 << " " << g_h2 << e.extra.str();
     return out.str();
 }
@@ -689,10 +747,14 @@ static std::string cmd_implicitcopy() {
 int main() {
     mp_set_memory_functions(c_alloc, c_realloc, c_free);
     const char* f = getenv("C17_FORMS"); g_forms = f ? atoi(f) : 0;
+    const char* mf = getenv("C17_MODEL_FLAGS");
+    if (mf && strlen(mf) >= 3) { g_fixr = mf[0] == '1'; g_fixrc = mf[1] == '1'; g_fxc = mf[2] == '1'; }
+    start_watchdog();
     std::string line;
     while (std::getline(std::cin, line)) {
         std::vector<std::string> t; { std::stringstream ss(line); std::string x; while (ss >> x) t.push_back(x); }
         if (t.empty()) continue;
+        ++g_case; set_case_name(line.substr(0, 2000));
         std::string r;
         if (t[0] == "tab") {
             int bad = 0; for (size_t i = 1; i < t.size() && i <= 512; ++i) if (strtoull(t[i].c_str(), 0, 10) != tabsize_at((int) i - 1)) ++bad;
@@ -724,6 +786,39 @@ int main() {
             std::ostringstream o; o << "dirty " << n; r = o.str();
         }
         else if (t[0] == "refcounter") { r = cmd_refcounter(); }
+        else if (t[0] == "hang") { volatile unsigned long z = 0; for (;;) ++z; }       // self-test of the watchdog
+        // ---- unguarded probes of the findings filed in phase 4: each in its own process, each may crash
+        else if (t[0] == "resize00") {      // GivMMFreeList::resize(0, 0, 0): the null pointer, nothing allocated (as it is: TabFree[-1])
+            long f0 = free_population(); void* p = GivMMFreeList::resize(0, 0, 0); long f1 = free_population();
+            std::ostringstream o; o << "p=" << (p ? "nonnull" : "null") << " lists=" << (f1 - f0); r = o.str();
+        }
+        else if (t[0] == "rcrefuse") {      // GivMMRefCount::resize to a size no class holds: GivError, and p / its count exactly as before
+            std::ostringstream o;
+            { void* p = GivMMRefCount::allocate(16); bool threw = false;
+              try { GivMMRefCount::resize(p, 16, 9000000); } catch (GivError&) { threw = true; }
+              o << "sole: threw=" << threw << " rc=" << GivMMRefCount::getrc(p) << " onlist=" << on_free_list((char*) p - 8); }
+            { void* p = GivMMRefCount::allocate(40); void* q2 = 0; GivMMRefCount::assign(&q2, p); bool threw = false;
+              try { GivMMRefCount::resize(q2, 40, 9000000); } catch (GivError&) { threw = true; }
+              o << " shared: threw=" << threw << " rc=" << GivMMRefCount::getrc(p); }
+            r = o.str();
+        }
+        else if (t[0] == "getcounter0") {   // getCounter() of arrays without storage: 0 sharers
+            std::ostringstream o; Array0<int> a; o << "default=" << a.getCounter();
+            Array0<Integer> b(3, Integer(5)); b.destroy(); o << " destroyed=" << b.getCounter();
+            Array0<int> c(2, 1); c.reallocate(0); Array0<int> d(c, givNoCopy()); o << " size0=" << c.getCounter() << "," << d.getCounter();
+            r = o.str();
+        }
+        else if (t[0] == "destroyheads") {  // GivMMFreeList::Destroy(): no free-list head may keep pointing to a freed bloc
+            void* p1 = GivMMFreeList::allocate(16); void* p2 = GivMMFreeList::allocate(100); GivMMFreeList::desallocate(p1); GivMMFreeList::desallocate(p2);
+            GivMMFreeList::Destroy(); int dangling = 0; for (int i = 0; i < 512; ++i) if (tabfree_head(i)) ++dangling;
+            std::ostringstream o; o << "dangling=" << dangling; r = o.str();
+        }
+        else if (t[0] == "wrapobs") {       // observation only: s*sizeof(T) wraps in GivaroMM<T>::allocate(s) (no element is touched here)
+            std::ostringstream o; const size_t sbig = (size_t(1) << 61) + 1;
+            try { long* q = GivaroMM<long>::allocate(sbig); o << "wrap=" << (q ? "block-of-" : "null") << (q ? (long) tabsize_at(header_index(q)) : 0L); GivaroMM<long>::desallocate(q); }
+            catch (GivError&) { o << "wrap=GivError"; }
+            r = o.str();
+        }
         else if (t[0] == "formcounts") { std::ostringstream o; o << "FORMS"; for (int i = 0; i < F_NFORMS; ++i) o << " " << g_fname[i] << "=" << g_fc[i]; r = o.str(); }
         else if (t[0] == "mmcpy") {     // GivMMFreeList::memcpy(dest, src, n) between two pooled blocks; the bytes after n and the source stay as they were
             std::ostringstream o; int bad = 0;
@@ -762,6 +857,7 @@ int main() {
 #endif
         }
         else r = "BAD-LINE";
+        ++g_case;
         std::cout << r << std::endl;
     }
     return 0;
